@@ -69,7 +69,11 @@ func generate(w *mon.W) {
 		case 6:
 			p = namedThenNarrowed(rng)
 		case 9:
-			p = renamedKeys(j)
+			if j%3 == 2 {
+				p = functionNamedKeys(j / 3)
+			} else {
+				p = renamedKeys(j - j/3)
+			}
 		case 10:
 			p = manyConditions(rng, 1+j%20)
 		case 12:
@@ -101,7 +105,11 @@ func DirectedPipelines(seed int64, n int) []*Pipe {
 		j := i / 10
 		switch i % 10 {
 		case 9:
-			out = append(out, renamedKeys(j))
+			if j%3 == 2 {
+				out = append(out, functionNamedKeys(j/3))
+			} else {
+				out = append(out, renamedKeys(j-j/3))
+			}
 		case 0:
 			out = append(out, twinJoins(rng))
 		case 1:
@@ -154,6 +162,35 @@ func renamedKeys(form int) *Pipe {
 		p.Ops = append(p.Ops, &Op{K: "count"})
 	case 1:
 		p.Ops = append(p.Ops, &Op{K: "project", Cols: []Col{bare("id"), bare("uid")}})
+	}
+	return p
+}
+
+// functionNamedKeys: both sides rename their key to the name of a built-in
+// function (a column may be called count, now, not, ...) and join on it as a
+// bare key, alone and after another bare key.
+func functionNamedKeys(form int) *Pipe {
+	names := []string{"count", "countif", "now", "not", "iff", "iif", "isnull", "isnotnull", "strcat", "tolower", "toupper", "sum", "min", "coalesce"}
+	n := names[form%len(names)]
+	v := form / len(names)
+	col := func(n, src string) Col { id := Ident{Name: n}; return Col{Name: &id, X: Name(src)} }
+	bare := func(n string) Col { id := Ident{Name: n}; return Col{Name: &id} }
+	left := &Op{K: "project", Cols: []Col{col(n, "k"), bare("j"), bare("id")}}
+	right := &Pipe{Table: Ident{Name: "U"}, Ops: []*Op{{K: "project", Cols: []Col{col(n, "k"), bare("j"), bare("uid")}}}}
+	conds := []*E{Name(n)}
+	switch v % 3 {
+	case 1:
+		conds = []*E{Name("j"), Name(n)}
+	case 2:
+		conds = []*E{Name(n), Name("j")}
+	}
+	p := &Pipe{Table: Ident{Name: "T"}, Ops: []*Op{left}}
+	kind := []string{"", "inner", "leftouter", "innerunique"}[(v/3)%4]
+	p.Ops = append(p.Ops, &Op{K: "join", Kind: kind, Right: right, Conds: conds})
+	if (v/12)%2 == 0 {
+		p.Ops = append(p.Ops, &Op{K: "project", Cols: []Col{bare("id"), bare("uid")}})
+	} else {
+		p.Ops = append(p.Ops, &Op{K: "count"})
 	}
 	return p
 }
